@@ -362,11 +362,13 @@ class BulkObservables:
         if num_events == 0:
             return 0
 
-        particle_method = getattr(self.particle_objects[0][0], quantity)
-        if not callable(particle_method):
-            raise AttributeError(
-                f"'{quantity}' is not a callable method of Particle"
-            )
+        for event in self.particle_objects:
+            if len(event) > 0:
+                if not callable(getattr(event[0], quantity)):
+                    raise AttributeError(
+                        f"'{quantity}' is not a callable method of Particle"
+                    )
+                break
 
         particle_counter = 0
         # Fill histograms
@@ -416,11 +418,13 @@ class BulkObservables:
         pT_sum = 0.0
         particle_counter = 0
 
-        particle_method = getattr(self.particle_objects[0][0], quantity)
-        if not callable(particle_method):
-            raise AttributeError(
-                f"'{quantity}' is not a callable method of Particle"
-            )
+        for event in self.particle_objects:
+            if len(event) > 0:
+                if not callable(getattr(event[0], quantity)):
+                    raise AttributeError(
+                        f"'{quantity}' is not a callable method of Particle"
+                    )
+                break
 
         # Fill histograms
         for event in self.particle_objects:
@@ -470,11 +474,13 @@ class BulkObservables:
         pT_sum = 0.0
         particle_counter = 0
 
-        particle_method = getattr(self.particle_objects[0][0], quantity)
-        if not callable(particle_method):
-            raise AttributeError(
-                f"'{quantity}' is not a callable method of Particle"
-            )
+        for event in self.particle_objects:
+            if len(event) > 0:
+                if not callable(getattr(event[0], quantity)):
+                    raise AttributeError(
+                        f"'{quantity}' is not a callable method of Particle"
+                    )
+                break
 
         # Fill histograms
         for event in self.particle_objects:
